@@ -8,6 +8,8 @@
 
 #include <algorithm>
 #include <fstream>
+#include <iomanip>
+#include <limits>
 #include <iostream>
 #include <sstream>
 #include <string>
@@ -39,6 +41,8 @@ static bool fill(tuple& t, const Relation* r, const std::vector<std::string>& va
 
 static std::string show(tuple& t, const Relation* r) {
     std::ostringstream os;
+    // floats rendered as the CSV writer renders them (the model compares the API view with the file-based view)
+    os << std::setprecision(std::numeric_limits<RamFloat>::max_digits10);
     t.rewind();
     for (std::size_t i = 0; i < r->getArity(); i++) {
         if (i) os << "\t";
